@@ -246,6 +246,8 @@ impl SecondaryStorage {
         self.version
             .commit_changes(vec![EpochOp::CreateTable(entry.clone())])
             .await?;
+        #[cfg(feature = "verif")]
+        crate::verif::point("create_table.persisted").await;
 
         // then apply to catalog
         self.apply_create_table(&entry)?;
@@ -284,6 +286,8 @@ impl SecondaryStorage {
         self.apply_drop_table(&entry)?;
 
         changeset.push(EpochOp::DropTable(entry));
+        #[cfg(feature = "verif")]
+        crate::verif::point("drop_table.applied").await;
 
         let pin_version = self.version.pin();
 
